@@ -4,7 +4,7 @@ import nets
 
 PID = "C03"
 THEOREMS = ["walk_topo", "sort_topo", "order_sort_topo", "rank_spec", "nnodes_spec", "loops_exact", "isvalid_iff",
-            "repair_spec", "check_topo_sound", "check_complete_sound"]
+            "repair_spec", "check_topo_sound", "check_complete_sound", "gen_inflow_idxs_eq", "gen_outflow_idxs_eq", "gen_headwater_indices_eq", "gen_confluence_indices_eq"]
 RULE = ("all closed functional graphs with nodata on n<=4 cells (n<=5 thorough; cycles of every length, trees on cycles) "
         "through core.rank / idxs_seq / loop_indices / upstream_count and through Flwdir and FlwdirRaster objects with "
         "both order_cells methods, isvalid, nnodes, repair_loops; random graphs to 60 cells; orders are compared as "
@@ -53,6 +53,13 @@ def cases(tier, rng):
         yield {"k": 301, "args": [ds], "group": "rand-rank"}
         yield {"k": 303 if "sort" in api else 302, "args": [ds, nets.pits(ds)], "call": {"api": api}, "group": f"rand-{api}"}
         yield {"k": 305, "args": [ds], "call": {"api": "ras"}, "group": "rand-isvalid"}
+        if nets.is_loopfree(ds):
+            # small structural helpers of core.py (kernels 310-313; their source is regenerated and proved equal to the models)
+            region = [int(rng.random() < 0.5) for _ in range(n)]
+            sqh = nets.topo_order(ds, rng)
+            yield {"k": rng.choice([310, 311]), "args": [ds, sqh, region], "group": "rand-inflow-outflow"}
+            hm = rng.randrange(2)
+            yield {"k": rng.choice([312, 313]), "args": [ds, [hm], [int(rng.random() < 0.6) for _ in range(n)] if hm else []], "group": "rand-headwater-confluence"}
         yield {"k": 306, "args": [ds], "call": {"api": rng.choice(["vec", "ras"]), "pre": rng.choice([None, "sort", "walk"])}, "group": "rand-repair"}
         # objects parsed from D8 / LDD rasters whose streams also leave the raster or end at missing cells: those outlets are
         # pits like the explicit ones, and every cell draining to them is ordered (round-5 seed)
@@ -105,6 +112,15 @@ def impl(case):
             mask = np.array(a[2], dtype=bool) if a[1][0] else None
             st, v = call_impl(core.upstream_count, arr, mask=mask)
             return [[int(x) for x in v]] if st == "ok" else [[-2], [st]]
+        if k in (310, 311):
+            fn = core.inflow_idxs if k == 310 else core.outflow_idxs
+            st, v = call_impl(fn, arr, np.array(a[1], dtype=np.int32), np.array(a[2], dtype=bool))
+            return [idx_list(v)] if st == "ok" else [[-2], [st]]
+        if k in (312, 313):
+            fn = core.headwater_indices if k == 312 else core.confluence_indices
+            mask = np.array(a[2], dtype=bool) if a[1][0] else None
+            st, v = call_impl(fn, arr, mask=mask)
+            return [idx_list(v)] if st == "ok" else [[-2], [st]]
     api = call["api"]
     mk = make_vector if api.startswith("vec") else make_raster
     if call.get("raster"):
@@ -209,6 +225,22 @@ def oracle(case, out):
         m = a[2] if a[1][0] else [1] * n
         exp = [(-9 if ds[j] < 0 else sum(1 for c in range(n) if ds[c] == j and c != j and m[c])) for j in range(n)]
         return None if out == [exp] else ("upstream_count", f"expected {exp} got {out}")
+    if k in (312, 313):
+        m = a[2] if a[1][0] else [1] * n
+        nup = [sum(1 for c in range(n) if ds[c] == j and c != j and m[c]) for j in range(n)]
+        exp = [j for j in range(n) if ds[j] >= 0 and (nup[j] == 0 if k == 312 else nup[j] > 1)]
+        return None if out == [exp] else ("headwater/confluence", f"expected {exp} got {out}")
+    if k in (310, 311):
+        region = a[2]
+        got = out[0]
+        if len(set(got)) != len(got):
+            return ("inflow/outflow:duplicate", f"{got}")
+        for i in got:
+            if k == 310 and not (ds[i] >= 0 and ds[i] != i and not region[i] and region[ds[i]]):
+                return ("inflow:not-an-inflow-cell", f"cell {i}: region {region} ds {ds}")
+            if k == 311 and not (ds[i] >= 0 and region[i] and (ds[i] == i or not region[ds[i]])):
+                return ("outflow:not-an-outflow-cell", f"cell {i}: region {region} ds {ds}")
+        return None
     return None
 
 
